@@ -134,6 +134,7 @@ def dist_item(item):
         ("unwinding assertion: bit_length(parent) <= N under the precondition", z3.And(pre, st["unwind_exceeded"])),
         ("termination witness: the function returns on every input", z3.And(pre, z3.Not(st["ret"]))),
         ("result stays in [-1, N] (no wrap-around in the head-room)", z3.And(pre, z3.Or(st["val"] < -1, st["val"] > N))),
+        ("no intermediate +, -, *, <<, unary minus leaves the bit-vector width", z3.And(pre, z3.Or(*tr.overflow)) if tr.overflow else z3.BoolVal(False)),
         ("equivalence with the declarative run count", z3.And(pre, st["val"] != spec_segment_dist(child, parent, edges, N, W))),
     ]
     for name, q in queries:
@@ -358,7 +359,8 @@ def main(argv=None):
     items += [{"kind": "complete", "N": 40, "timeout_ms": to}]
     items += [{"kind": "roundtrip", "n": n} for n in range(0, nmax + 1)]
     res, sk = R.run_sharded(worker, items, 3500)
-    rep.add_results("all", res, sk, exhaustive=True)
+    rep.add_results("subseq_segment_dist: bit-vector proof per N", [r for r in res if r.get("item", {}).get("kind") == "dist"], sk, exhaustive=True)
+    rep.add_results("subseq_complete and symbolic-element round trips", [r for r in res if r.get("item", {}).get("kind") != "dist"], 0, exhaustive=True)
     res, sk = R.run_sharded(worker, [{"kind": "roundtrip-concrete", "n": n} for n in range(0, nmax + 2)], 600)
     rep.add_results("round trips on concrete int / str / tuple elements (plain enumeration, companion of the symbolic round trip)", res, sk, exhaustive=True)
     rep.extra["cvc5_crosscheck"] = [r.get("cvc5") for r in res if r.get("cvc5")]
